@@ -26,6 +26,7 @@ def run(ctx):
     r011(ctx, t0, t1)
     r012(ctx)
     r013(ctx, t0, t1)
+    r014(ctx)
 
 
 def r011(ctx, t0, t1):
@@ -164,6 +165,41 @@ def r012(ctx):
                              show(inst["node"]), inst["from"], inst["to"], path, inst["to"] + "::MAX", why),
                          sample={"fn": path, "cast": show(inst["node"]), "from": inst["from"], "to": inst["to"], "guard": why})
     ctx.extra["narrowing_casts_in_simplify"] = n
+
+
+def r014(ctx):
+    """sibling-branch contradiction rule: in a shift-by-constant rule, the branch for `amount >= width` and the branch for an
+    amount too large to be represented both mean "shifted out completely" and must yield the same expression"""
+    ctx.rule("R01.4", "in simplify_bv_shift_left/right/arithmetic_shift_right the result for a constant amount that does not fit the integer type equals the result of the `amount >= width` branch (both mean: shifted out completely)")
+    c = ctx.facts.lib("patronus")
+    n = 0
+    for fname in ("simplify_bv_shift_left", "simplify_bv_shift_right", "simplify_bv_arithmetic_shift_right"):
+        fl = c.fns.get("patronus::expr::simplify::" + fname)
+        if not fl:
+            ctx.inst("ANCHOR", "missing:" + fname, False, None, "rule function %s not found" % fname, nontrivial=False)
+            continue
+        f = fl[0]
+        found = False
+        for x in walk(f["body"]):
+            if x.get("k") == "if" and peel(x["cond"]).get("k") == "letexpr" and "else" in x and "to_u64" in show(peel(x["cond"])["init"]):
+                # inside the then-branch: `if by >= width { A } ...`
+                ge = None
+                for y in walk(x["then"]):
+                    if y.get("k") == "if" and show(peel(y["cond"])).replace(" ", "") in ("(by>=width)", "(width<=by)"):
+                        ge = y
+                        break
+                if ge is None:
+                    continue
+                found = True
+                n += 1
+                a = show(peel_block(ge["then"])).replace(" ", "")
+                b = show(peel_block(x["else"])).replace(" ", "")
+                ctx.inst("R01.4", "%s:overflow-branch-agrees" % fname, a == b, x["else"]["sp"],
+                         "%s rewrites a shift by `amount >= width` to `%s` but a shift by an amount too large for the integer type to `%s`: both shift everything out, one of the two is wrong" % (fname, a[:90], b[:90]),
+                         sample={"fn": fname, "amount>=width": a[:80], "amount too large": b[:80]})
+        if not found:
+            ctx.inst("R01.4", "%s:shape" % fname, False, f["span"], "UNRECOGNISED: %s no longer has the shape `if let Some(by) = ..to_u64().. { if by >= width {..} .. } else {..}`" % fname)
+    ctx.floor("R01.4", "shift rules with an overflow branch", n, 3)
 
 
 def r013(ctx, t0, t1):
